@@ -658,6 +658,25 @@ func Run(r *core.Run) {
 		r.Scratch = root
 	}
 
+	if r.Replay != "" {
+		// re-run exactly the scenario of a replay file (no design checks)
+		var rp struct {
+			Detail struct {
+				Scenario scenario `json:"scenario"`
+			} `json:"detail"`
+		}
+		b, err := os.ReadFile(r.Replay)
+		if err != nil || json.Unmarshal(b, &rp) != nil || rp.Detail.Scenario.Shape == "" {
+			r.Infra("cannot read the scenario of replay file %s", r.Replay)
+			return
+		}
+		confirmed := map[string]int{}
+		var cmu sync.Mutex
+		runBatch(r, []scenario{rp.Detail.Scenario}, 0, confirmed, &cmu)
+		r.Set("rule", "replay of one scenario")
+		return
+	}
+
 	// design checks run concurrently with the real builds
 	var wg sync.WaitGroup
 	var cands []candidate
